@@ -1057,6 +1057,25 @@ class _CalendarFlow:
         for c in ast.iter_child_nodes(e):
             self.expr(f, c, st, depth)
 
+    def _expand_predicates(self, f: Func, test: ast.expr) -> ast.expr:
+        """A test that calls a parameterless predicate of the same object (`if self.__is_year_outside_calendar():`) is replaced by
+        the expression that predicate returns, so that its range facts are seen."""
+        import copy
+
+        M, cls = self.M, f.cls
+
+        class Sub(ast.NodeTransformer):
+            def visit_Call(self, node):  # noqa: N802
+                if isinstance(node.func, ast.Attribute) and isinstance(node.func.value, ast.Name) and node.func.value.id == "self" and not node.args and not node.keywords and cls is not None:
+                    g = M.find_method(cls, mangle(cls.name, node.func.attr)) or M.find_method(cls, node.func.attr)
+                    if g is not None and not isinstance(g.node, ast.Lambda):
+                        body = [b for b in g.body if not (isinstance(b, ast.Expr) and isinstance(b.value, ast.Constant))]
+                        if len(body) == 1 and isinstance(body[0], ast.Return) and body[0].value is not None:
+                            return copy.deepcopy(body[0].value)
+                return self.generic_visit(node)
+
+        return Sub().visit(copy.deepcopy(test))
+
     def method(self, g: Func, st: dict, depth: int) -> dict | None:
         """State after a successful call of g (exits returning None when g follows the `failure or None` convention, all exits otherwise)."""
         exits: list[tuple[ast.expr | None, dict]] = []
@@ -1083,8 +1102,9 @@ class _CalendarFlow:
             if isinstance(s, ast.If):
                 st = {k: set(v) for k, v in st.items()}
                 self.expr(f, s.test, st, depth)
-                a = self.block(f, s.body, self._apply(st, atoms(s.test, True)), depth, exits)
-                b = self.block(f, s.orelse, self._apply(st, atoms(s.test, False)), depth, exits)
+                test = self._expand_predicates(f, s.test)
+                a = self.block(f, s.body, self._apply(st, atoms(test, True)), depth, exits)
+                b = self.block(f, s.orelse, self._apply(st, atoms(test, False)), depth, exits)
                 st = self._join(a, b) if (a is not None and b is not None) else (a if b is None else b)
                 continue
             if isinstance(s, (ast.Assign, ast.AnnAssign, ast.AugAssign)):
